@@ -1,20 +1,1254 @@
-//! C17 — not implemented yet (stub).
+//! C17 — module graphs evaluate each module once, in dependency order.
+//!
+//! A case is a directed graph over n <= 8 modules plus per-module attributes (genp::modgraph),
+//! rendered to `{"modules":{name:src}, "entries":[...], "async_loader":bool}`. The harness loads
+//! the entries one after the other through a logging `ModuleLoader`
+//! (`Module::parse` + `load_link_evaluate` + `Context::run_jobs`) and reads the state of the
+//! returned promise. Oracles:
+//!   * D-ext: V8's `vm.SourceTextModule` (oracle/node_c17.js), full print trace, per-stage
+//!     print counts, settlement and rejection class of every entry evaluation;
+//!   * M: `model()` below, the specification's InnerModuleEvaluation (depth-first, cycles closed
+//!     at their root) executed over the rendered statements; authoritative for graphs in which
+//!     no module is evaluated asynchronously, so the synchronous verdict does not depend on node;
+//!   * oracle-free invariants: a body starts at most once, only after all non-cyclic
+//!     dependencies finished; every reachable module is requested from the host, at most once
+//!     per (referrer, specifier); an entry rejects iff it reaches a throwing module, with one of
+//!     their classes; a repeated evaluation prints nothing and settles identically; no promise
+//!     is left pending after `run_jobs`.
 
 use crate::driver::{CaseOut, Env, Prop, Stream, Tier};
+use crate::genp::modgraph::{self, Await, Case, Throw};
+use crate::oracle::{Server, verif_root};
+use crate::run::{Completion, PRINTS, install_panic_hook, install_print, panic_signature, take_last_panic, throw_class};
+use crate::tape::Tape;
+use boa_engine::{
+    Context, JsError, JsResult, JsValue, Module, Source,
+    builtins::promise::PromiseState,
+    module::{ModuleLoader, ModuleRequest, Referrer},
+};
+use serde_json::{Value, json};
+use std::cell::RefCell;
+use std::collections::{BTreeMap, BTreeSet};
+use std::future::Future;
+use std::pin::Pin;
+use std::rc::Rc;
+use std::task::{Context as TaskCx, Poll};
 
 pub struct C17;
+
+/// Generator exclusions for the two open findings (known.d/C17.json). `BV_C17_NOEXCL=1` turns
+/// them off (used to reproduce the findings through the generator).
+fn exclusions_on() -> bool {
+    std::env::var_os("BV_C17_NOEXCL").is_none()
+}
+/// (a) C17-a: no module WITHOUT top-level await whose body throws while its execution was
+/// deferred behind an asynchronous dependency that fulfils.
+const EXCL_DEFERRED_SYNC_THROWER: &str = "excluded-deferred-sync-thrower";
+/// (b) C17-b: no cycle whose non-root asynchronous member waits for a different number of
+/// asynchronous dependencies than the cycle root.
+const EXCL_CYCLE_PENDING_MISMATCH: &str = "excluded-cycle-pending-mismatch";
+/// (c) C17-d: no dynamic import() whose target can still be evaluating asynchronously when the
+/// import is continued: the target (transitively) imports a top-level-await module AND it is also
+/// evaluated by an entry or by another dynamic import.
+const EXCL_DYN_IMPORT_OF_ASYNC: &str = "excluded-dyn-import-of-async-evaluating-module";
+/// (a'), (b'): the walks started by import() run at a host-defined time and are not modelled, so
+/// findings (a) and (b) are kept out of them structurally: no import() of a module that reaches a
+/// top-level-await module in a case that also has (a') a throwing module without top-level await
+/// above a top-level-await module, or (b') a cycle with a member above (or with) top-level await.
+const EXCL_DYN_WITH_DEFERRED_THROWER: &str = "excluded-import()-with-sync-thrower-above-tla";
+const EXCL_DYN_WITH_ASYNC_CYCLE: &str = "excluded-import()-with-cycle-above-tla";
+
+// ---------------------------------------------------------------------------------------
+// rendered case
+
+#[derive(Clone, Debug)]
+pub struct RCase {
+    pub modules: Vec<(String, String)>,
+    pub entries: Vec<String>,
+    pub async_loader: bool,
+}
+
+impl RCase {
+    fn from_case(c: &Case) -> Self {
+        Self { modules: c.render(), entries: c.entries.iter().map(|e| modgraph::mod_name(*e)).collect(), async_loader: c.async_loader }
+    }
+    fn to_json(&self) -> String {
+        let mut m = serde_json::Map::new();
+        for (k, v) in &self.modules {
+            m.insert(k.clone(), json!(v));
+        }
+        serde_json::to_string_pretty(&json!({"modules": m, "entries": self.entries, "async_loader": self.async_loader})).unwrap_or_default()
+    }
+    fn from_json(text: &str) -> Option<Self> {
+        let v: Value = serde_json::from_str(text).ok()?;
+        let modules: Vec<(String, String)> = v["modules"].as_object()?.iter().map(|(k, s)| (k.clone(), s.as_str().unwrap_or("").to_string())).collect();
+        let entries: Vec<String> = v["entries"].as_array()?.iter().filter_map(|e| e.as_str().map(str::to_string)).collect();
+        if modules.is_empty() || entries.is_empty() {
+            return None;
+        }
+        Some(Self { modules, entries, async_loader: v["async_loader"].as_bool().unwrap_or(false) })
+    }
+}
+
+// ---------------------------------------------------------------------------------------
+// reading a rendered case back (statement vocabulary of genp::modgraph::render_module)
+
+#[derive(Clone, Debug, PartialEq)]
+enum St {
+    Let,
+    Print(String),
+    Throw(String),
+    Probe { label: String, target: usize },
+    Await,
+    NsLine,
+    Dyn { target: usize, awaited: bool },
+    Nop,
+}
+
+#[derive(Clone, Debug, Default)]
+struct PMod {
+    requests: Vec<usize>,
+    body: Vec<St>,
+    tla: bool,
+    throws: bool,
+    dyn_targets: Vec<usize>,
+}
+
+#[derive(Clone, Debug)]
+struct PCase {
+    mods: Vec<PMod>,
+    names: Vec<String>,
+    entries: Vec<usize>,
+    /// every import specifier and entry names a module of the case
+    graph_ok: bool,
+    /// every body line was understood (the model applies)
+    body_ok: bool,
+}
+
+fn quoted(s: &str) -> Vec<&str> {
+    // contents of '...' pieces (the vocabulary never escapes quotes)
+    s.split('\'').skip(1).step_by(2).collect()
+}
+
+fn parse_case(rc: &RCase) -> PCase {
+    let names: Vec<String> = rc.modules.iter().map(|(k, _)| k.clone()).collect();
+    let index = |n: &str| names.iter().position(|x| x == n);
+    let mut graph_ok = true;
+    let mut body_ok = true;
+    let mut mods = vec![];
+    for (name, src) in &rc.modules {
+        let mut m = PMod::default();
+        for line in src.lines() {
+            let l = line.trim();
+            if l.is_empty() {
+                continue;
+            }
+            let q = quoted(l);
+            let is_decl_from = (l.starts_with("import ") && !l.starts_with("import(")) || l.starts_with("export * from") || (l.starts_with("export {") && l.contains("} from '"));
+            if is_decl_from {
+                match q.last().and_then(|s| index(s)) {
+                    Some(t) => {
+                        if !m.requests.contains(&t) {
+                            m.requests.push(t);
+                        }
+                    }
+                    None => graph_ok = false,
+                }
+                continue;
+            }
+            let st = if l.starts_with("export let ") {
+                St::Let
+            } else if l.starts_with("export function ") {
+                St::Nop
+            } else if l.starts_with("print('") && q.len() == 1 && l.ends_with("');") && (q[0].ends_with(":start") || q[0].ends_with(":end")) && q[0].starts_with(&format!("{name}:")) {
+                St::Print(q[0].to_string())
+            } else if l.starts_with("throw new ") && l.ends_with(");") {
+                St::Throw(l["throw new ".len()..].split('(').next().unwrap_or("").to_string())
+            } else if l.starts_with("throw '") && q.len() == 1 {
+                St::Throw(format!("opaque:string:{}", q[0]))
+            } else if l.starts_with("await ") && !l.contains("import(") {
+                St::Await
+            } else if l.starts_with("try { print('") && q.first().is_some_and(|s| s.contains(":v")) && l.contains("catch (e)") {
+                let label = q[0].to_string();
+                let digits: String = label.split(":v").nth(1).unwrap_or("").chars().take_while(char::is_ascii_digit).collect();
+                match index(&format!("m{digits}")) {
+                    Some(target) => St::Probe { label, target },
+                    None => {
+                        body_ok = false;
+                        St::Nop
+                    }
+                }
+            } else if (l.starts_with("try { print('") && q.first().is_some_and(|s| s.contains(":ns"))) || (l.starts_with("print('") && q.first().is_some_and(|s| s.contains(":own"))) {
+                St::NsLine
+            } else if l.starts_with("try { const d = await import('") || l.starts_with("import('") {
+                match q.first().and_then(|s| index(s)) {
+                    Some(target) => St::Dyn { target, awaited: l.starts_with("try {") },
+                    None => {
+                        graph_ok = false;
+                        St::Nop
+                    }
+                }
+            } else {
+                body_ok = false;
+                St::Nop
+            };
+            match &st {
+                St::Await => m.tla = true,
+                St::Dyn { target, awaited } => {
+                    m.tla |= *awaited;
+                    m.dyn_targets.push(*target);
+                }
+                St::Throw(_) => m.throws = true,
+                _ => {}
+            }
+            m.body.push(st);
+        }
+        mods.push(m);
+    }
+    let mut entries = vec![];
+    for e in &rc.entries {
+        match index(e) {
+            Some(i) => entries.push(i),
+            None => graph_ok = false,
+        }
+    }
+    PCase { mods, names, entries, graph_ok, body_ok }
+}
+
+impl PCase {
+    fn n(&self) -> usize {
+        self.mods.len()
+    }
+    fn has_dyn(&self) -> bool {
+        self.mods.iter().any(|m| !m.dyn_targets.is_empty())
+    }
+    /// reach[a][b]: b is reachable from a by one or more static imports
+    fn reach(&self) -> Vec<Vec<bool>> {
+        let n = self.n();
+        let mut r = vec![vec![false; n]; n];
+        for (a, m) in self.mods.iter().enumerate() {
+            for b in &m.requests {
+                r[a][*b] = true;
+            }
+        }
+        for k in 0..n {
+            for a in 0..n {
+                if r[a][k] {
+                    for b in 0..n {
+                        if r[k][b] {
+                            r[a][b] = true;
+                        }
+                    }
+                }
+            }
+        }
+        r
+    }
+    /// finding (d) shape: (importer, target) of a dynamic import whose target reaches a top-level-await
+    /// module and is also evaluated, under an asynchronously evaluating cycle root or dependency
+    /// position, by an entry walk, or by another dynamic import
+    fn dyn_import_of_async(&self, mo: &ModelOut) -> Option<(usize, usize)> {
+        let r = self.reach();
+        let edges: Vec<(usize, usize)> = self.mods.iter().enumerate().flat_map(|(i, m)| m.dyn_targets.iter().map(move |x| (i, *x))).collect();
+        for (k, &(i, x)) in edges.iter().enumerate() {
+            let reaches_tla = (0..self.n()).any(|t| self.mods[t].tla && (t == x || r[x][t]));
+            // evaluated by an entry walk under an asynchronous root, or (not modelled: assume the worst)
+            // evaluated by another import() as well
+            let by_entry = mo.joins_async_root.get(x).copied().unwrap_or(false);
+            let by_other_import = edges.iter().enumerate().any(|(j, &(_, y))| j != k && (y == x || r[y][x]));
+            if reaches_tla && (by_entry || by_other_import) {
+                return Some((i, x));
+            }
+        }
+        None
+    }
+    /// (importers, a', b'): the modules whose import() target reaches a top-level-await module, and,
+    /// if there are any, whether the live graph has (a') a throwing module without top-level await
+    /// above a top-level-await module, (b') a cycle with a member above (or with) top-level await
+    fn import_walk_shapes(&self) -> (Vec<usize>, bool, bool) {
+        let n = self.n();
+        let reach = self.reach();
+        let reaches_tla = |x: usize| (0..n).any(|t| self.mods[t].tla && (t == x || reach[x][t]));
+        let risky: Vec<usize> = (0..n).filter(|i| self.mods[*i].dyn_targets.iter().any(|x| reaches_tla(*x))).collect();
+        if risky.is_empty() {
+            return (risky, false, false);
+        }
+        let mut roots = self.entries.clone();
+        roots.extend(self.mods.iter().flat_map(|m| m.dyn_targets.iter().copied()));
+        let live = self.closure(&roots);
+        let a2 = live.iter().any(|t| self.mods[*t].throws && !self.mods[*t].tla && reaches_tla(*t));
+        let b2 = live.iter().any(|m| reaches_tla(*m) && (0..n).any(|o| o != *m && reach[*m][o] && reach[o][*m]));
+        (risky, a2, b2)
+    }
+    /// the static closure of a set of modules (including them)
+    fn closure(&self, roots: &[usize]) -> BTreeSet<usize> {
+        let r = self.reach();
+        let mut s = BTreeSet::new();
+        for a in roots {
+            s.insert(*a);
+            for b in 0..self.n() {
+                if r[*a][b] {
+                    s.insert(b);
+                }
+            }
+        }
+        s
+    }
+}
+
+// ---------------------------------------------------------------------------------------
+// M: the reference model (ECMA-262 16.2.1.5.3 Evaluate / InnerModuleEvaluation)
+
+#[derive(Clone, Copy, PartialEq, Eq, Debug)]
+enum Stt {
+    Linked,
+    Evaluating,
+    EvaluatingAsync,
+    Evaluated,
+}
+
+#[derive(Clone, Debug, Default)]
+struct ModelOut {
+    prints: Vec<String>,
+    stage_prints: Vec<usize>,
+    results: Vec<String>,
+    /// some module was (or would be) evaluated asynchronously, or started a dynamic import:
+    /// prints and results are not authoritative
+    async_seen: bool,
+    /// finding (a): a module without top-level await whose execution was deferred behind an
+    /// asynchronous dependency and whose body throws when it is finally run
+    deferred_sync_thrower: Option<usize>,
+    /// finding (b): (root, member): an asynchronous non-root member of a cycle that waits for
+    /// k > 0 asynchronous dependencies while the cycle root waits for a different number, and the
+    /// dependencies fulfil (a rejection propagates without reading the count)
+    cycle_pending_mismatch: Option<(usize, usize)>,
+    /// modules that an entry walk leaves (for some time) in a cycle whose root is evaluating-async,
+    /// without being the module Evaluate() was called on: a later Evaluate() of such a module must
+    /// hand out / install the capability of that root (finding d)
+    joins_async_root: Vec<bool>,
+    /// the module each Evaluate() call worked on (the entry, or its cycle root when already evaluated)
+    stage_root: Vec<usize>,
+}
+
+struct Sim<'a> {
+    c: &'a PCase,
+    status: Vec<Stt>,
+    err: Vec<Option<String>>,
+    idx: Vec<usize>,
+    anc: Vec<usize>,
+    order: Vec<Option<usize>>,
+    pending: Vec<usize>,
+    /// the pending count of the module's cycle root at the time the cycle was closed
+    stored: Vec<usize>,
+    async_deps: Vec<Vec<usize>>,
+    root: Vec<usize>,
+    capability: Vec<Option<String>>,
+    init: Vec<bool>,
+    v: Vec<i64>,
+    stack: Vec<usize>,
+    counter: usize,
+    /// the module the current Evaluate() call works on
+    top: usize,
+    out: ModelOut,
+}
+
+impl Sim<'_> {
+    /// ExecuteModule for a module without top-level await.
+    fn execute(&mut self, m: usize) -> Result<(), String> {
+        let c = self.c;
+        for st in &c.mods[m].body {
+            match st {
+                St::Let => self.init[m] = true,
+                St::Print(s) => self.out.prints.push(s.clone()),
+                St::Throw(class) => return Err(class.clone()),
+                St::Probe { label, target } => {
+                    // live binding: read, call the exporter's mutator, read again
+                    if self.init[*target] {
+                        self.out.prints.push(format!("{label} {}", self.v[*target]));
+                        self.v[*target] += 1;
+                        self.out.prints.push(format!("{label} {}", self.v[*target]));
+                    } else {
+                        self.out.prints.push(format!("{label} TDZ"));
+                    }
+                }
+                St::Dyn { .. } => self.out.async_seen = true,
+                St::Await | St::NsLine | St::Nop => {}
+            }
+        }
+        Ok(())
+    }
+
+    fn inner(&mut self, m: usize, mut index: usize) -> Result<usize, String> {
+        match self.status[m] {
+            Stt::Evaluating | Stt::EvaluatingAsync => return Ok(index),
+            Stt::Evaluated => return self.err[m].clone().map_or(Ok(index), Err),
+            Stt::Linked => {}
+        }
+        self.status[m] = Stt::Evaluating;
+        self.idx[m] = index;
+        self.anc[m] = index;
+        self.pending[m] = 0;
+        index += 1;
+        self.stack.push(m);
+        let c = self.c;
+        for &r in &c.mods[m].requests {
+            index = self.inner(r, index)?;
+            let (rq, is_async) = if self.status[r] == Stt::Evaluating {
+                self.anc[m] = self.anc[m].min(self.anc[r]);
+                (r, self.order[r].is_some())
+            } else {
+                let rq = self.root[r];
+                if let Some(e) = &self.err[rq] {
+                    return Err(e.clone());
+                }
+                (rq, self.status[rq] == Stt::EvaluatingAsync)
+            };
+            if is_async {
+                self.pending[m] += 1;
+                self.async_deps[m].push(rq);
+            }
+        }
+        if self.pending[m] > 0 || c.mods[m].tla {
+            self.order[m] = Some(self.counter);
+            self.counter += 1;
+            self.out.async_seen = true;
+        } else {
+            self.execute(m)?;
+        }
+        if self.anc[m] == self.idx[m] {
+            loop {
+                let r = self.stack.pop().expect("module is on the stack");
+                self.status[r] = if self.order[r].is_some() { Stt::EvaluatingAsync } else { Stt::Evaluated };
+                self.root[r] = m;
+                // the count the engine under test stores for a non-root member is the root's (finding b)
+                self.stored[r] = self.pending[m];
+                if self.order[m].is_some() && !(r == m && m == self.top) {
+                    self.out.joins_async_root[r] = true;
+                }
+                if r == m {
+                    break;
+                }
+            }
+        }
+        Ok(index)
+    }
+
+    /// The asynchronous phase is not simulated; only its final states (every await of the
+    /// vocabulary resolves): an asynchronously evaluated module ends in error iff its body throws
+    /// or one of the asynchronous dependencies it waited for ended in error.
+    fn settle(&mut self) {
+        let mut ms: Vec<usize> = (0..self.c.n()).filter(|m| self.status[*m] == Stt::EvaluatingAsync).collect();
+        ms.sort_by_key(|m| self.order[*m]);
+        for m in ms {
+            let errs = self.async_deps[m].iter().filter(|d| self.err[**d].is_some()).count();
+            let dep_err = errs > 0;
+            let pm = &self.c.mods[m];
+            // finding (b): m waits for `own` > 0 dependencies but would be given the count of its cycle root.
+            // Too large a count: m never runs, unless a dependency rejects (rejection does not count).
+            // Too small a count: m runs early once `stored` dependencies have fulfilled.
+            let (own, stored) = (self.pending[m], self.stored[m]);
+            if own > 0 && stored != own && self.out.cycle_pending_mismatch.is_none() && ((stored > own && errs == 0) || (stored < own && own - errs >= stored)) {
+                self.out.cycle_pending_mismatch = Some((self.root[m], m));
+            }
+            if !dep_err && pm.throws && !pm.tla && self.pending[m] > 0 && self.out.deferred_sync_thrower.is_none() {
+                self.out.deferred_sync_thrower = Some(m);
+            }
+            self.status[m] = Stt::Evaluated;
+            self.order[m] = None;
+            if dep_err || pm.throws {
+                self.err[m] = Some("async".into());
+            }
+            if self.capability[m].is_some() {
+                self.capability[m] = Some("async".into());
+            }
+        }
+    }
+
+    fn evaluate(&mut self, entry: usize) {
+        let mut m = entry;
+        if matches!(self.status[m], Stt::EvaluatingAsync | Stt::Evaluated) {
+            m = self.root[m];
+        }
+        self.out.stage_root.push(m);
+        let res = if let Some(r) = &self.capability[m] {
+            r.clone()
+        } else {
+            self.stack.clear();
+            self.top = m;
+            let r = match self.inner(m, 0) {
+                Err(e) => {
+                    for s in std::mem::take(&mut self.stack) {
+                        self.status[s] = Stt::Evaluated;
+                        self.order[s] = None;
+                        self.err[s] = Some(e.clone());
+                    }
+                    format!("rejected:throw:{e}")
+                }
+                Ok(_) => {
+                    if self.status[m] == Stt::Evaluated {
+                        "fulfilled".to_string()
+                    } else {
+                        "async".to_string()
+                    }
+                }
+            };
+            self.capability[m] = Some(r.clone());
+            r
+        };
+        self.settle();
+        self.out.results.push(res);
+        self.out.stage_prints.push(self.out.prints.len());
+    }
+}
+
+fn model(c: &PCase) -> ModelOut {
+    let n = c.n();
+    let mut s = Sim {
+        c,
+        status: vec![Stt::Linked; n],
+        err: vec![None; n],
+        idx: vec![0; n],
+        anc: vec![0; n],
+        order: vec![None; n],
+        pending: vec![0; n],
+        stored: vec![0; n],
+        async_deps: vec![vec![]; n],
+        root: (0..n).collect(),
+        capability: vec![None; n],
+        init: vec![false; n],
+        v: (0..n as i64).map(|i| i * 10).collect(),
+        stack: vec![],
+        counter: 0,
+        top: 0,
+        out: ModelOut { joins_async_root: vec![false; n], ..ModelOut::default() },
+    };
+    for e in &c.entries {
+        s.evaluate(*e);
+    }
+    s.out
+}
+
+// ---------------------------------------------------------------------------------------
+// the boa side: a logging module loader
+
+struct YieldOnce(bool);
+impl Future for YieldOnce {
+    type Output = ();
+    fn poll(mut self: Pin<&mut Self>, cx: &mut TaskCx<'_>) -> Poll<()> {
+        if self.0 {
+            Poll::Ready(())
+        } else {
+            self.0 = true;
+            cx.waker().wake_by_ref();
+            Poll::Pending
+        }
+    }
+}
+
+struct LogLoader {
+    sources: BTreeMap<String, String>,
+    cache: RefCell<BTreeMap<String, Module>>,
+    /// (referrer, specifier) of every host call
+    calls: RefCell<Vec<(String, String)>>,
+    /// specifiers in the order they were fetched (parsed) for the first time
+    fetched: RefCell<Vec<String>>,
+    async_mode: bool,
+}
+
+impl LogLoader {
+    fn name_of(&self, m: &Module) -> String {
+        self.cache.borrow().iter().find(|(_, v)| *v == m).map_or_else(|| "<unknown>".to_string(), |(k, _)| k.clone())
+    }
+    fn get_or_parse(&self, spec: &str, ctx: &mut Context) -> JsResult<Module> {
+        if let Some(m) = self.cache.borrow().get(spec) {
+            return Ok(m.clone());
+        }
+        let Some(src) = self.sources.get(spec) else {
+            return Err(boa_engine::JsNativeError::typ().with_message(format!("harness loader: no module {spec}")).into());
+        };
+        self.fetched.borrow_mut().push(spec.to_string());
+        let m = Module::parse(Source::from_bytes(src.as_bytes()), None, ctx)?;
+        self.cache.borrow_mut().insert(spec.to_string(), m.clone());
+        Ok(m)
+    }
+    /// number of times the asynchronous loader yields to the job queue before it answers
+    fn delay(spec: &str) -> usize {
+        let h = spec.bytes().fold(7usize, |a, b| a.wrapping_mul(31).wrapping_add(b as usize));
+        h % 4
+    }
+}
+
+impl ModuleLoader for LogLoader {
+    async fn load_imported_module(self: Rc<Self>, referrer: Referrer, request: ModuleRequest, context: &RefCell<&mut Context>) -> JsResult<Module> {
+        let spec = request.specifier().to_std_string_escaped();
+        let from = match &referrer {
+            Referrer::Module(m) => self.name_of(m),
+            Referrer::Realm(_) => "<realm>".to_string(),
+            Referrer::Script(_) => "<script>".to_string(),
+        };
+        self.calls.borrow_mut().push((from, spec.clone()));
+        if self.async_mode {
+            for _ in 0..Self::delay(&spec) {
+                YieldOnce(false).await;
+            }
+        }
+        self.get_or_parse(&spec, &mut context.borrow_mut())
+    }
+}
+
+#[derive(Clone, Debug, Default)]
+struct BoaOut {
+    prints: Vec<String>,
+    stage_prints: Vec<usize>,
+    results: Vec<String>,
+    same_error: Vec<Option<bool>>,
+    calls: Vec<(String, String)>,
+    fetched: Vec<String>,
+    panic: Option<String>,
+}
+
+fn rejection_class(v: &JsValue) -> String {
+    match throw_class(&JsError::from_opaque(v.clone())) {
+        Completion::Throw(c) => format!("throw:{c}"),
+        other => other.render(),
+    }
+}
+
+fn run_boa(rc: &RCase) -> BoaOut {
+    install_panic_hook();
+    PRINTS.with(|p| p.borrow_mut().clear());
+    let out = RefCell::new(BoaOut::default());
+    let loader = Rc::new(LogLoader {
+        sources: rc.modules.iter().cloned().collect(),
+        cache: RefCell::default(),
+        calls: RefCell::default(),
+        fetched: RefCell::default(),
+        async_mode: rc.async_loader,
+    });
+    let result = std::panic::catch_unwind(std::panic::AssertUnwindSafe(|| {
+        // leaked when a panic unwinds through it: dropping a context whose VM was interrupted mid-run is not safe
+        let mut ctx = std::mem::ManuallyDrop::new(Context::builder().module_loader(loader.clone()).build().expect("context"));
+        install_print(&mut ctx);
+        let mut last: BTreeMap<String, JsValue> = BTreeMap::new();
+        for entry in &rc.entries {
+            let (res, same) = match loader.get_or_parse(entry, &mut ctx) {
+                Err(e) => (format!("parse-error:{}", throw_class(&e).render()), None),
+                Ok(module) => {
+                    let promise = module.load_link_evaluate(&mut ctx);
+                    let jobs = ctx.run_jobs();
+                    let mut same = None;
+                    let res = match (jobs, promise.state()) {
+                        (Err(e), _) => format!("run-jobs-error:{}", throw_class(&e).render()),
+                        (_, PromiseState::Pending) => "pending".to_string(),
+                        (_, PromiseState::Fulfilled(_)) => {
+                            last.remove(entry);
+                            "fulfilled".to_string()
+                        }
+                        (_, PromiseState::Rejected(v)) => {
+                            if let Some(prev) = last.get(entry) {
+                                same = Some(prev.strict_equals(&v));
+                            }
+                            last.insert(entry.clone(), v.clone());
+                            format!("rejected:{}", rejection_class(&v))
+                        }
+                    };
+                    (res, same)
+                }
+            };
+            let mut o = out.borrow_mut();
+            o.results.push(res);
+            o.same_error.push(same);
+            o.stage_prints.push(PRINTS.with(|p| p.borrow().len()));
+        }
+        drop(last);
+        let ctx = std::mem::ManuallyDrop::into_inner(ctx);
+        drop(ctx);
+    }));
+    let mut o = out.into_inner();
+    if result.is_err() {
+        o.panic = Some(panic_signature(&take_last_panic().unwrap_or_else(|| "unknown panic".into())));
+    }
+    o.prints = PRINTS.with(|p| std::mem::take(&mut *p.borrow_mut()));
+    o.calls = loader.calls.borrow().clone();
+    o.fetched = loader.fetched.borrow().clone();
+    o
+}
+
+// ---------------------------------------------------------------------------------------
+// the V8 side
+
+thread_local! {
+    static NODE17: RefCell<Option<Server>> = const { RefCell::new(None) };
+}
+
+#[derive(Clone, Debug, Default)]
+struct V8Out {
+    prints: Vec<String>,
+    stage_prints: Vec<usize>,
+    results: Vec<String>,
+    same_error: Vec<Option<bool>>,
+    dyn_calls: Vec<(String, String)>,
+}
+
+fn run_v8(rc: &RCase) -> Result<V8Out, String> {
+    NODE17.with(|cell| {
+        let mut slot = cell.borrow_mut();
+        if slot.is_none() {
+            let cmd: Vec<String> = ["node", "--experimental-vm-modules", "--no-warnings"].iter().map(|s| (*s).to_string()).chain([format!("{}/oracle/node_c17.js", verif_root())]).collect();
+            *slot = Some(Server::spawn(&cmd).map_err(|e| format!("cannot start node: {e}"))?);
+        }
+        let mut m = serde_json::Map::new();
+        for (k, v) in &rc.modules {
+            m.insert(k.clone(), json!(v));
+        }
+        let v = slot.as_mut().expect("server").call(json!({"modules": m, "entries": rc.entries}))?;
+        let strs = |x: &Value| -> Vec<String> { x.as_array().map(|a| a.iter().map(|s| s.as_str().unwrap_or("").to_string()).collect()).unwrap_or_default() };
+        Ok(V8Out {
+            prints: strs(&v["prints"]),
+            stage_prints: v["stage_prints"].as_array().map(|a| a.iter().map(|x| x.as_u64().unwrap_or(0) as usize).collect()).unwrap_or_default(),
+            results: strs(&v["entry_results"]),
+            same_error: v["same_error"].as_array().map(|a| a.iter().map(Value::as_bool).collect()).unwrap_or_default(),
+            dyn_calls: v["dyn"].as_array().map(|a| a.iter().map(|p| (p[0].as_str().unwrap_or("").to_string(), p[1].as_str().unwrap_or("").to_string())).collect()).unwrap_or_default(),
+        })
+    })
+}
+
+// ---------------------------------------------------------------------------------------
+// the check
+
+fn show(prints: &[String], stages: &[usize], results: &[String]) -> String {
+    let mut s = String::new();
+    let mut k = 0;
+    for (i, p) in prints.iter().enumerate() {
+        while k < stages.len() && stages[k] == i {
+            s.push_str(&format!("  -- entry #{k} => {}\n", results.get(k).map_or("?", String::as_str)));
+            k += 1;
+        }
+        s.push_str(&format!("  {p}\n"));
+    }
+    while k < stages.len() {
+        s.push_str(&format!("  -- entry #{k} => {}\n", results.get(k).map_or("?", String::as_str)));
+        k += 1;
+    }
+    s
+}
+
+fn is_ns_line(p: &str) -> bool {
+    let label = p.split(' ').next().unwrap_or("");
+    let tail = label.split(':').nth(1).unwrap_or("");
+    tail.starts_with("ns") || tail.starts_with("own") || tail.starts_with("dyn")
+}
+
+/// prints grouped by the module that issued them (the `mI:` prefix)
+fn per_module(prints: &[String]) -> BTreeMap<String, Vec<String>> {
+    let mut m: BTreeMap<String, Vec<String>> = BTreeMap::new();
+    for p in prints {
+        m.entry(p.split(':').next().unwrap_or("").to_string()).or_default().push(p.clone());
+    }
+    m
+}
+
+struct Shape {
+    cycle: bool,
+    self_import: bool,
+    diamond: bool,
+    tla: bool,
+    throws: bool,
+    reachable: usize,
+}
+
+fn shape(pc: &PCase) -> Shape {
+    let r = pc.reach();
+    let live = pc.closure(&pc.entries);
+    let mut sh = Shape { cycle: false, self_import: false, diamond: false, tla: false, throws: false, reachable: live.len() };
+    for &a in &live {
+        let m = &pc.mods[a];
+        sh.tla |= m.tla;
+        sh.throws |= m.throws;
+        if r[a][a] {
+            sh.cycle = true;
+        }
+        if m.requests.contains(&a) {
+            sh.self_import = true;
+        }
+        for (i, &b) in m.requests.iter().enumerate() {
+            for &c in &m.requests[i + 1..] {
+                if b == c || b == a || c == a {
+                    continue;
+                }
+                // some module is reached through both b and c
+                if (0..pc.n()).any(|d| (d == b || r[b][d]) && (d == c || r[c][d])) {
+                    sh.diamond = true;
+                }
+            }
+        }
+    }
+    sh
+}
+
+struct Checked {
+    fail: Option<(String, String)>,
+    labels: Vec<&'static str>,
+    nontrivial: bool,
+    skip: Option<String>,
+}
+
+fn n_label(n: usize) -> &'static str {
+    ["n=0", "n=1", "n=2", "n=3", "n=4", "n=5", "n=6", "n=7", "n=8"].get(n).copied().unwrap_or("n>8")
+}
+
+fn check(rc: &RCase, min_modules: usize) -> Checked {
+    let pc = parse_case(rc);
+    let mut labels: Vec<&'static str> = vec![];
+    let mo = if pc.graph_ok { Some(model(&pc)) } else { None };
+    let sh = if pc.graph_ok { Some(shape(&pc)) } else { None };
+    let has_dyn = pc.has_dyn();
+    let flag_d = mo.as_ref().and_then(|m| pc.dyn_import_of_async(m));
+    // the class of the case, used in failure signatures
+    let class = match &mo {
+        Some(m) if m.deferred_sync_thrower.is_some() && m.cycle_pending_mismatch.is_some() => "deferred-sync-thrower+cycle-pending-mismatch".to_string(),
+        Some(m) if m.deferred_sync_thrower.is_some() => "deferred-sync-thrower".to_string(),
+        Some(m) if m.cycle_pending_mismatch.is_some() => "cycle-pending-mismatch".to_string(),
+        _ if flag_d.is_some() => "dyn-import-of-async-evaluating-module".to_string(),
+        _ if pc.graph_ok && pc.import_walk_shapes().1 => "import()-walk+sync-thrower-above-tla".to_string(),
+        _ if pc.graph_ok && pc.import_walk_shapes().2 => "import()-walk+cycle-above-tla".to_string(),
+        _ => match &sh {
+            Some(s) => format!("{}{}{}", if s.cycle { "cycle" } else { "acyclic" }, if s.tla { "+tla" } else { "" }, if s.throws { "+throw" } else { "" }),
+            None => "unparsed".to_string(),
+        },
+    };
+    if let Some(s) = &sh {
+        labels.push(n_label(pc.n()));
+        for (on, l) in [
+            (s.cycle, "has-cycle"),
+            (s.self_import, "has-self-import"),
+            (s.diamond, "has-diamond"),
+            (s.tla, "has-tla"),
+            (s.throws, "has-throw"),
+            (s.cycle && s.tla, "cycle+tla"),
+            (s.cycle && s.throws, "cycle+throw"),
+            (s.tla && s.throws, "tla+throw"),
+            (has_dyn, "dyn-import"),
+            (rc.async_loader, "async-loader"),
+            (pc.entries.len() > 1 && pc.entries.iter().enumerate().any(|(i, e)| pc.entries[..i].contains(e)), "entry-evaluated-twice"),
+            (pc.entries.iter().collect::<BTreeSet<_>>().len() > 1, "several-entries"),
+        ] {
+            if on {
+                labels.push(l);
+            }
+        }
+    }
+    if let Some(m) = &mo {
+        labels.push(if m.async_seen { "async-evaluation" } else { "sync-evaluation" });
+        if m.deferred_sync_thrower.is_some() {
+            labels.push("shape-of-finding-a");
+        }
+        if m.cycle_pending_mismatch.is_some() {
+            labels.push("shape-of-finding-b");
+        }
+    }
+    if flag_d.is_some() {
+        labels.push("shape-of-finding-d");
+    }
+
+    let b = run_boa(rc);
+    let v8 = match run_v8(rc) {
+        Ok(v) => v,
+        Err(e) => return Checked { fail: None, labels, nontrivial: false, skip: Some(format!("oracle-error: {}", e.chars().take(80).collect::<String>())) },
+    };
+    let boa_txt = format!("--- boa\n{}", show(&b.prints, &b.stage_prints, &b.results));
+    let v8_txt = format!("--- v8\n{}", show(&v8.prints, &v8.stage_prints, &v8.results));
+    let fail = |sig: String, detail: String, labels: Vec<&'static str>| Checked { fail: Some((format!("{sig} [{class}]"), detail)), labels, nontrivial: true, skip: None };
+
+    // 1. the engine must not panic
+    if let Some(p) = &b.panic {
+        return fail(format!("panic {p}"), format!("boa panicked after {} entry evaluation(s)\n{boa_txt}{v8_txt}", b.results.len()), labels);
+    }
+    // 2. nothing is left pending after run_jobs (V8 settles every entry of the vocabulary)
+    if let Some(k) = b.results.iter().position(|r| r == "pending") {
+        if v8.results.get(k).map(String::as_str) != Some("pending") {
+            return fail("pending after run_jobs".into(), format!("entry #{k} ({}) is still pending after Context::run_jobs\n{boa_txt}{v8_txt}", rc.entries[k]), labels);
+        }
+    }
+    if let Some(r) = b.results.iter().find(|r| r.starts_with("run-jobs-error") || r.starts_with("parse-error")) {
+        return fail(r.split(':').next().unwrap_or("error").to_string(), format!("{r}\n{boa_txt}{v8_txt}"), labels);
+    }
+    if v8.results.iter().any(|r| r.starts_with("link-error")) {
+        // V8 links every module of the case up front; boa links what the entry reaches
+        let want = format!("rejected:{}", v8.results[0].trim_start_matches("link-error:"));
+        if b.results[0] != want || !b.prints.is_empty() {
+            return fail("link-error disagreement".into(), format!("v8: {}\n{boa_txt}", v8.results[0]), labels);
+        }
+        labels.push("link-error");
+        return Checked { fail: None, labels, nontrivial: false, skip: None };
+    }
+    if v8.results.iter().any(|r| r.starts_with("api-error") || r == "pending") {
+        return Checked { fail: None, labels, nontrivial: false, skip: Some("v8-does-not-settle".into()) };
+    }
+
+    // 3. oracle-free invariants
+    if pc.graph_ok {
+        let reach = pc.reach();
+        // 3a. a body starts at most once, and only after every non-cyclic dependency has finished
+        let mut started: BTreeSet<usize> = BTreeSet::new();
+        let mut ended: BTreeSet<usize> = BTreeSet::new();
+        for p in &b.prints {
+            let Some((name, what)) = p.split_once(':') else { continue };
+            let Some(x) = pc.names.iter().position(|n| n == name) else { continue };
+            if what == "start" {
+                if !started.insert(x) {
+                    return fail("body ran twice".into(), format!("{name} started twice\n{boa_txt}"), labels);
+                }
+                for &y in &pc.mods[x].requests {
+                    let cyclic = y == x || reach[y][x];
+                    if !cyclic && !ended.contains(&y) {
+                        return fail("dependency order".into(), format!("{name} started before its non-cyclic dependency {} finished\n{boa_txt}{v8_txt}", pc.names[y]), labels);
+                    }
+                }
+            } else if what == "end" {
+                ended.insert(x);
+            }
+        }
+        // 3b. host calls: every reachable module requested, none twice for the same (referrer, specifier)
+        let mut seen: BTreeMap<(String, String), usize> = BTreeMap::new();
+        for c in &b.calls {
+            *seen.entry(c.clone()).or_default() += 1;
+        }
+        for ((from, spec), k) in &seen {
+            let fi = pc.names.iter().position(|n| n == from);
+            let ti = pc.names.iter().position(|n| n == spec);
+            let allowed = match (fi, ti) {
+                (Some(f), Some(t)) => usize::from(pc.mods[f].requests.contains(&t)) + pc.mods[f].dyn_targets.iter().filter(|d| **d == t).count(),
+                _ => 0,
+            };
+            // (two import() calls in flight load the same graph concurrently: the specification asks the host again)
+            if *k > allowed && !has_dyn {
+                return fail("host asked twice".into(), format!("HostLoadImportedModule({from}, {spec}) was called {k} times, at most {allowed} expected\ncalls: {:?}", b.calls), labels);
+            }
+        }
+        let mut roots = pc.entries.clone();
+        for (_, spec) in &v8.dyn_calls {
+            if let Some(t) = pc.names.iter().position(|n| n == spec) {
+                roots.push(t);
+            }
+        }
+        let want: BTreeSet<String> = pc.closure(&roots).iter().map(|i| pc.names[*i].clone()).collect();
+        let got: BTreeSet<String> = b.fetched.iter().cloned().collect();
+        if b.fetched.len() != got.len() || want != got {
+            return fail("loaded set".into(), format!("modules fetched by boa: {:?}\nexpected (static closure of the entries and of the executed dynamic imports): {want:?}", b.fetched), labels);
+        }
+        // 3c. an entry rejects iff it reaches a throwing module, with one of their classes
+        if !has_dyn && pc.body_ok {
+            for (k, e) in pc.entries.iter().enumerate() {
+                let classes: BTreeSet<String> = pc
+                    .closure(&[*e])
+                    .iter()
+                    .flat_map(|m| pc.mods[*m].body.iter().filter_map(|s| if let St::Throw(c) = s { Some(format!("rejected:throw:{c}")) } else { None }))
+                    .collect();
+                let ok = if classes.is_empty() { b.results[k] == "fulfilled" } else { classes.contains(&b.results[k]) };
+                if !ok {
+                    return fail("rejects exactly the dependents".into(), format!("entry #{k} ({}) settled as {}; throwing modules it reaches: {classes:?}\n{boa_txt}{v8_txt}", rc.entries[k], b.results[k]), labels);
+                }
+            }
+        }
+    }
+    // 3e. import('mX') fulfils iff X reaches no throwing module
+    if pc.graph_ok && pc.body_ok && has_dyn {
+        for p in &b.prints {
+            let mut it = p.split(' ');
+            let label = it.next().unwrap_or("");
+            let Some(t) = label.split(":dyn").nth(1) else { continue };
+            let Some(x) = pc.names.iter().position(|n| *n == format!("m{t}")) else { continue };
+            let throws = pc.closure(&[x]).iter().any(|m| pc.mods[*m].throws);
+            let want = if throws { "rej" } else { "ok" };
+            if it.next() != Some(want) {
+                return fail("import() outcome".into(), format!("{p}: expected {want} (m{t} reaches {} throwing module)\n{boa_txt}{v8_txt}", if throws { "a" } else { "no" }), labels);
+            }
+        }
+    }
+    // 3d. a repeated evaluation prints nothing and settles the same way, with the same error value
+    for k in 0..rc.entries.len() {
+        if let Some(j) = (0..k).rev().find(|j| rc.entries[*j] == rc.entries[k]) {
+            let printed = b.stage_prints[k] - b.stage_prints[k - 1];
+            if printed != 0 || b.results[k] != b.results[j] || b.same_error[k] == Some(false) {
+                return fail(
+                    "re-evaluation".into(),
+                    format!("entry #{k} repeats entry #{j} ({}): printed {printed} line(s), settled {} (before: {}), same error value: {:?}\n{boa_txt}", rc.entries[k], b.results[k], b.results[j], b.same_error[k]),
+                    labels,
+                );
+            }
+        }
+    }
+
+    // 4. M: the reference model, when every module is evaluated synchronously
+    if let Some(m) = &mo {
+        if pc.body_ok && !m.async_seen {
+            let got: Vec<&String> = b.prints.iter().filter(|p| !is_ns_line(p)).collect();
+            let want: Vec<&String> = m.prints.iter().collect();
+            if got != want {
+                return fail("trace differs from the reference model".into(), format!("--- model\n{}{boa_txt}{v8_txt}", show(&m.prints, &m.stage_prints, &m.results)), labels);
+            }
+            if b.results != m.results {
+                return fail("settlement differs from the reference model".into(), format!("model: {:?}\nboa: {:?}\n{boa_txt}", m.results, b.results), labels);
+            }
+            // stage boundaries, counted on the model's lines
+            let mut acc = vec![];
+            let mut count = 0;
+            let mut k = 0;
+            for (i, p) in b.prints.iter().enumerate() {
+                while k < b.stage_prints.len() && b.stage_prints[k] == i {
+                    acc.push(count);
+                    k += 1;
+                }
+                if !is_ns_line(p) {
+                    count += 1;
+                }
+            }
+            while acc.len() < b.stage_prints.len() {
+                acc.push(count);
+            }
+            if acc != m.stage_prints {
+                return fail("stage differs from the reference model".into(), format!("--- model\n{}{boa_txt}", show(&m.prints, &m.stage_prints, &m.results)), labels);
+            }
+            labels.push("checked-by-model");
+        }
+    }
+
+    // 5. D-ext: V8
+    let kind = |r: &str| r.split(':').next().unwrap_or("").to_string();
+    let thrower_classes: BTreeSet<&String> = pc.mods.iter().flat_map(|m| m.body.iter().filter_map(|s| if let St::Throw(c) = s { Some(c) } else { None })).collect();
+    for k in 0..b.results.len() {
+        if b.results[k] == v8.results[k] {
+            continue;
+        }
+        let both_reject = kind(&b.results[k]) == "rejected" && kind(&v8.results[k]) == "rejected";
+        // (i) V8 rejects Evaluate() of an errored module with that module's OWN error; the specification
+        // (16.2.1.5.3 steps 3-4) moves to the cycle root first: the root's promise, hence the outcome
+        // recorded for the root. The two differ when members of one cycle failed asynchronously with
+        // different errors. Decide those by the specification: same outcome as the root's evaluation.
+        let root = mo.as_ref().and_then(|m| m.stage_root.get(k).copied());
+        if let (true, Some(root), Some(e)) = (both_reject && !has_dyn, root, pc.entries.get(k)) {
+            if root != *e && mo.as_ref().is_some_and(|m| m.async_seen) {
+                let recorded = (0..k).rev().find(|j| pc.entries[*j] == root).map(|j| &b.results[j]);
+                if recorded.is_none_or(|r| *r == b.results[k]) {
+                    labels.push("v8-own-error-vs-cycle-root-error");
+                    continue;
+                }
+            }
+        }
+        // (ii) with import() the order in which two failures reach a module is host-defined
+        if both_reject && has_dyn && thrower_classes.len() >= 2 {
+            labels.push("dyn-timing-decides-error-class");
+            continue;
+        }
+        return fail("settlement differs from V8".into(), format!("boa: {:?}\nv8:  {:?}\n{boa_txt}{v8_txt}", b.results, v8.results), labels);
+    }
+    if has_dyn {
+        // The completion time of import() is host-defined, and with it which modules a later walk still
+        // finds unevaluated. What is not: whether each import() settles, and how (fulfilled / rejected).
+        let outcomes = |prints: &[String]| -> BTreeMap<String, usize> {
+            let mut m = BTreeMap::new();
+            for p in prints {
+                let mut it = p.split(' ');
+                let label = it.next().unwrap_or("");
+                if label.split(':').nth(1).is_some_and(|t| t.starts_with("dyn")) {
+                    *m.entry(format!("{label} {}", it.next().unwrap_or(""))).or_default() += 1;
+                }
+            }
+            m
+        };
+        let (bd, vd) = (outcomes(&b.prints), outcomes(&v8.prints));
+        let total = |m: &BTreeMap<String, usize>, label: &str| -> usize { m.iter().filter(|(k, _)| k.split(' ').next() == Some(label)).map(|(_, v)| *v).sum() };
+        if let Some(label) = vd.keys().map(|k| k.split(' ').next().unwrap_or("")).find(|l| total(&bd, l) < total(&vd, l)) {
+            return fail("dynamic import() never settled".into(), format!("V8 printed the outcome line {label}, boa did not: the promise returned by import() is still pending after run_jobs\n{boa_txt}{v8_txt}"), labels);
+        }
+        if bd != vd {
+            return fail("dynamic import() outcome differs from V8".into(), format!("boa: {bd:?}\nv8:  {vd:?}\n{boa_txt}{v8_txt}"), labels);
+        }
+        if per_module(&b.prints) == per_module(&v8.prints) {
+            labels.push("checked-by-v8-per-module");
+        } else {
+            // decided by the invariants and the outcomes above only
+            labels.push("dyn-timing-differs-from-v8");
+        }
+    } else {
+        if b.prints != v8.prints {
+            let k = b.prints.iter().zip(v8.prints.iter()).position(|(x, y)| x != y).unwrap_or(b.prints.len().min(v8.prints.len()));
+            return fail("trace differs from V8".into(), format!("first difference at line {k}: boa={:?} v8={:?}\n{boa_txt}{v8_txt}", b.prints.get(k), v8.prints.get(k)), labels);
+        }
+        if b.stage_prints != v8.stage_prints {
+            return fail("stage differs from V8".into(), format!("{boa_txt}{v8_txt}"), labels);
+        }
+        labels.push("checked-by-v8-full-trace");
+    }
+    for k in 0..b.same_error.len() {
+        if let (Some(x), Some(Some(y))) = (b.same_error[k], v8.same_error.get(k)) {
+            if x != *y {
+                return fail("error identity differs from V8".into(), format!("entry #{k}: boa same={x} v8 same={y}"), labels);
+            }
+        }
+    }
+    if b.results.iter().any(|r| r.starts_with("rejected")) {
+        labels.push("some-entry-rejects");
+    }
+    if flag_d.is_some() || mo.as_ref().is_some_and(|m| m.deferred_sync_thrower.is_some() || m.cycle_pending_mismatch.is_some()) {
+        // only reachable with BV_C17_NOEXCL=1 or hand-written input: measures how narrow the exclusions are
+        labels.push("finding-shape-but-passes");
+        if std::env::var_os("BV_C17_FLAGPASS").is_some() {
+            // diagnostic: surface these cases as replay files
+            let which = format!("a={:?} b={:?} d={flag_d:?}", mo.as_ref().and_then(|m| m.deferred_sync_thrower), mo.as_ref().and_then(|m| m.cycle_pending_mismatch));
+            return fail("diagnostic: finding shape but passes".into(), format!("{which}\n{boa_txt}"), labels);
+        }
+    }
+    let nontrivial = sh.as_ref().is_some_and(|s| (s.cycle || s.diamond) && s.reachable >= min_modules && (s.tla || s.throws));
+    Checked { fail: None, labels, nontrivial, skip: None }
+}
+
+fn to_out(rendered: String, c: Checked, mut extra: Vec<&'static str>) -> CaseOut {
+    extra.extend(c.labels);
+    if let Some(why) = c.skip {
+        return CaseOut::skip(rendered, why).with_labels(extra);
+    }
+    match c.fail {
+        Some((sig, detail)) => CaseOut::fail(rendered, sig, detail).with_labels(extra),
+        None => CaseOut::pass(rendered, c.nontrivial).with_labels(extra),
+    }
+}
+
+/// Apply the two named exclusions: repair the generated case until the model no longer flags it.
+fn apply_exclusions(case: &mut Case, labels: &mut Vec<&'static str>) {
+    if !exclusions_on() {
+        return;
+    }
+    for _ in 0..4 * modgraph::MAXN {
+        let pc = parse_case(&RCase::from_case(case));
+        let (risky, a2, b2) = pc.import_walk_shapes();
+        if a2 || b2 {
+            for i in risky {
+                case.mods[i].dynimp = None;
+            }
+            for (on, l) in [(a2, EXCL_DYN_WITH_DEFERRED_THROWER), (b2, EXCL_DYN_WITH_ASYNC_CYCLE)] {
+                if on && !labels.contains(&l) {
+                    labels.push(l);
+                }
+            }
+            continue;
+        }
+        let mo = model(&pc);
+        if let Some(m) = mo.deferred_sync_thrower {
+            // (a) drop the throw of exactly that module
+            case.mods[m].throw = Throw::Never;
+            if !labels.contains(&EXCL_DEFERRED_SYNC_THROWER) {
+                labels.push(EXCL_DEFERRED_SYNC_THROWER);
+            }
+            continue;
+        }
+        if let Some((_root, member)) = mo.cycle_pending_mismatch {
+            // (b) make the cycle member synchronous again: drop one await below it (itself first)
+            let reach = pc.reach();
+            let victim = std::iter::once(member).chain((0..pc.n()).filter(|d| reach[member][*d])).find(|d| case.mods[*d].has_tla());
+            match victim {
+                Some(d) => {
+                    case.mods[d].aw = Await::None;
+                    if let Some((t, true)) = case.mods[d].dynimp {
+                        case.mods[d].dynimp = Some((t, false));
+                    }
+                }
+                None => break,
+            }
+            if !labels.contains(&EXCL_CYCLE_PENDING_MISMATCH) {
+                labels.push(EXCL_CYCLE_PENDING_MISMATCH);
+            }
+            continue;
+        }
+        if let Some((importer, _target)) = pc.dyn_import_of_async(&mo) {
+            // (c) drop exactly that import() call
+            case.mods[importer].dynimp = None;
+            if !labels.contains(&EXCL_DYN_IMPORT_OF_ASYNC) {
+                labels.push(EXCL_DYN_IMPORT_OF_ASYNC);
+            }
+            continue;
+        }
+        break;
+    }
+}
+
+const N3_GRAPHS: u64 = 2 + 16 + 512;
+const PRESET_SLOTS: u64 = modgraph::PRESETS as u64 + 1;
+
+fn n3_graph(g: u64) -> Vec<Vec<usize>> {
+    if g < 2 {
+        modgraph::decode_edges(1, true, g)
+    } else if g < 18 {
+        modgraph::decode_edges(2, true, g - 2)
+    } else {
+        modgraph::decode_edges(3, true, g - 18)
+    }
+}
 
 impl Prop for C17 {
     fn id(&self) -> &'static str {
         "C17"
     }
-    fn streams(&self, _tier: Tier) -> Vec<Stream> {
-        vec![]
+    fn streams(&self, tier: Tier) -> Vec<Stream> {
+        let mut v = vec![Stream::new("exhaustive-n<=3", N3_GRAPHS * PRESET_SLOTS, 96).batch(250).exhaustive()];
+        if tier == Tier::Thorough {
+            v.push(Stream::new("n4-all-edge-sets", 4096 * 6, 96).batch(256));
+            v.push(Stream::new("random", 100_000, 160).batch(250));
+        } else {
+            v.push(Stream::new("random", 1500, 160).batch(50));
+        }
+        v
     }
     fn rule(&self) -> String {
-        "stub".into()
+        "a case = a module graph (n <= 8 modules; import declarations in a chosen order and form: bare, named binding with a live-binding probe, namespace with Object.keys printed, export * from, export {x as y} from, bindings imported through a re-exporter; self-imports and cycles) + per-module attributes (throw before / after the body used its imports, 4 error classes; top-level await of a resolved value or of a promise chain, early or late; dynamic import() awaited or not; declarations after the body) + a sequence of 1-4 entry evaluations (same entry again, a second entry sharing a sub-graph) + synchronous or queue-yielding loader. Stream exhaustive-n<=3: all 2+16+512 edge sets over 1..3 modules (self-imports included) x 24 fixed attribute vectors + 1 tape-sampled vector; n4-all-edge-sets (thorough): all 4096 edge sets over 4 modules x 6 tape-sampled vectors; random: 7 shape families (uniform, dense cycle, diamond under a cycle, cycle entered midway, shared-leaf DAG, two cycles) from the tape. Each case is run in boa and in V8 (vm.SourceTextModule); graphs evaluated synchronously are also decided by the reference model. Non-trivial = the sub-graph reachable from the entries has a cycle or a diamond, >= 4 modules (>= 3 in the exhaustive stream) and >= 1 module that throws or awaits; distinct = distinct rendered case".into()
     }
-    fn run_case(&self, _env: &mut Env, _stream: &str, _index: u64, _tape: &[u8]) -> CaseOut {
-        CaseOut::skip(String::new(), "stub")
+    fn assumptions(&self) -> Vec<String> {
+        vec![
+            "V8 (node 20 vm.SourceTextModule, all modules linked up front, shared microtask queue drained by a macrotask between entry evaluations) implements the specification's module evaluation order for graphs with top-level await; graphs without asynchronous evaluation are decided by the reference model as well".into(),
+            "the completion time of dynamic import() is host-defined, and so is which modules a later walk still finds unevaluated: cases with import() are decided by the invariants, the entry settlements and the fulfilled/rejected outcome of every import(); the per-module print sequences are compared too and a difference is only labelled (dyn-timing-differs-from-v8)".into(),
+            "V8 rejects Evaluate() of an already errored module with that module's own error, the specification with the outcome recorded for its cycle root; when the two differ (members of one cycle failed asynchronously with different errors) the specification decides (label v8-own-error-vs-cycle-root-error)".into(),
+            "generator exclusions for the open findings C17-a..d (labels excluded-*): synchronous throwers deferred behind an asynchronous dependency; cycles whose non-root asynchronous member waits for another number of dependencies than the root; import() of a module that is evaluating asynchronously under somebody else's capability; and, because walks started by import() are not modelled, import() of a module above top-level await in a case that has a synchronous thrower or a cycle above top-level await".into(),
+        ]
+    }
+    fn run_case(&self, _env: &mut Env, stream: &str, index: u64, tape: &[u8]) -> CaseOut {
+        let mut labels: Vec<&'static str> = vec![];
+        let (mut case, min_modules) = match stream {
+            "exhaustive-n<=3" => {
+                let g = index / PRESET_SLOTS;
+                let p = (index % PRESET_SLOTS) as usize;
+                let adj = n3_graph(g % N3_GRAPHS);
+                let c = if p < modgraph::PRESETS {
+                    modgraph::preset(&adj, p)
+                } else {
+                    labels.push("sampled-attributes");
+                    modgraph::attributes(&adj, &mut Tape::new(tape))
+                };
+                (c, 3)
+            }
+            "n4-all-edge-sets" => {
+                let adj = modgraph::decode_edges(4, false, (index / 6) % 4096);
+                (modgraph::attributes(&adj, &mut Tape::new(tape)), 4)
+            }
+            _ => (modgraph::random_case(tape), 4),
+        };
+        labels.extend(case.labels.iter().copied());
+        if case.demote_deadlocking_dyn_awaits() {
+            labels.push("dyn-await-would-deadlock-demoted");
+        }
+        apply_exclusions(&mut case, &mut labels);
+        let rc = RCase::from_case(&case);
+        let rendered = rc.to_json();
+        to_out(rendered, check(&rc, min_modules), labels)
+    }
+    fn run_rendered(&self, _env: &mut Env, stream: &str, rendered: &str) -> Option<CaseOut> {
+        let Some(rc) = RCase::from_json(rendered) else {
+            return Some(CaseOut::skip(rendered.to_string(), "rendered input is not a C17 case"));
+        };
+        let min_modules = if stream == "exhaustive-n<=3" { 3 } else { 4 };
+        Some(to_out(rendered.to_string(), check(&rc, min_modules), vec![]))
+    }
+    fn rendered_prefix_lines(&self, _rendered: &str) -> usize {
+        0
     }
 }
